@@ -72,7 +72,11 @@ def jobs(tier, seed):
               (len(sym) > 1 and (el is None or 'budget' in sym)) or
               (el is None and 'budget' in sym)):
             continue   # 4-geo default-eligibility budget cells: thorough
-          out.append(_mk(panel, m, sym, el, i))
+          if panel != 'P1' and el is None and 'budget' in sym and len(
+              sym) > 1:
+            continue   # does not exhaust within an hour
+          out.append(_mk(panel, m, sym, el, i, max_s=800 if tier == 'quick'
+                         else 3000))
   # the data object was used before by / is shared with another search object
   for m in ['exhaustive', 'greedy']:
     for h in ['prior', 'interleave']:
